@@ -283,6 +283,25 @@ where
             if g.abs(&got) != Some(want) {
                 return Err(Fail::new(format!("{}: default MSM wrong for n = {} (window {})", name, nn, C::A::find_pippinger_window(nn))));
             }
+            // the same lists through the table-driven variant (tables of all bases concatenated) and the bucket method at two
+            // fixed windows, for list lengths up to ~1000: block / chunk boundaries inside those paths
+            if nn <= 1100 {
+                let mut pre: Vec<C::A> = Vec::with_capacity(nn * 256);
+                for t in 0..nn {
+                    pre.extend_from_slice(&tables[(t * stride) % n]);
+                }
+                let got = guard(|| C::A::sum_of_products_precomp_256(&pts, &sc, &pre)).map_err(|e| Fail::new(format!("{}: table-driven MSM panicked for n = {}: {}", name, nn, e)))?;
+                if g.abs(&got) != Some(want) {
+                    return Err(Fail::new(format!("{}: table-driven MSM (sum_of_products_precomp_256) wrong for n = {}", name, nn)));
+                }
+                for w in [3usize, 7] {
+                    let got = C::A::sum_of_products_pippinger(&pts, &sc, w);
+                    if g.abs(&got) != Some(want) {
+                        return Err(Fail::new(format!("{}: bucket method at window {} wrong for n = {}", name, w, nn)));
+                    }
+                }
+                bump(3);
+            }
             bump(nn as u64 - 1);
             Ok("boundary length")
         },
